@@ -112,7 +112,7 @@ PROPS = {
         thorough_extra=[("conn", "cnall5", 1, 1)],
         relevant=["C08:"],
         theorems=["DV.Props.C08."+t for t in ["C08_one_at_a_time","C08_next_after_return","C08_order","C08_all_dispatched","C08_frame","C08_enabled","C08_gen"]],
-        gen_obligations=["Gen.serveDispatchSync","Gen.goServeSites","Gen.muxServeRLockDeferred","Gen.acceptSpawnsServe"],
+        gen_obligations=["Gen.serveDispatchSync","Gen.goServeSites","Gen.muxServeRLockDeferred","Gen.acceptSpawnsServe","Gen.sharedBlockingState","Gen.serverHandlerCalls"],
         trusted=CONN_TRUST,
     ),
     "C14": dict(
@@ -128,7 +128,7 @@ PROPS = {
         thorough_extra=[("conn", "cnall5", 1, 1)],
         relevant=["C15:"],
         theorems=["DV.Props.C15."+t for t in ["C15_panic_contained","C15_bad_input_contained","C15_one_report","C15_fault_cleanup","C15_frame","C15_mux_lock","C15_mux_lock_needs_defer","C15_listener","C15_listener_perm","C15_write_contained","C15_late_write_fails","C15_write_needs_own_writer","C15_pool_exclusive","C15_pool_double_put_counterexample","C15_pool_gen","C15_fault_closes_despite_stuck_writer","C15_close_gen","C15_gen"]],
-        gen_obligations=["Gen.serveDeferRecover","Gen.serveDeferClose","Gen.serveDeferNotify","Gen.muxServeRLockDeferred","Gen.acceptRetryCond","Gen.acceptBackoffFirstMs","Gen.acceptBackoffFactor","Gen.acceptBackoffMaxMs","Gen.acceptResetsDelay","Gen.acceptSpawnsServe","Gen.serveDefersListenerClose","Gen.capErrorReports","Gen.connBufferSources","Gen.tlsHandshakeSites","Gen.poolUsers","Gen.closePaths","Gen.serveReportCond"],
+        gen_obligations=["Gen.serveDeferRecover","Gen.serveDeferClose","Gen.serveDeferNotify","Gen.muxServeRLockDeferred","Gen.acceptRetryCond","Gen.acceptBackoffFirstMs","Gen.acceptBackoffFactor","Gen.acceptBackoffMaxMs","Gen.acceptResetsDelay","Gen.acceptSpawnsServe","Gen.serveDefersListenerClose","Gen.capErrorReports","Gen.connBufferSources","Gen.tlsHandshakeSites","Gen.poolUsers","Gen.closePaths","Gen.serveReportCond","Gen.sharedBlockingState"],
         trusted=CONN_TRUST + ["Model.Listener hand-written from Server.Serve's accept loop; back-off constants regenerated",
                               "Model.ConnWrite: writer objects and the transports they point at (Server.newConn, response.Write); that each connection allocates its own bufio.Writer is the regenerated fact Gen.connBufferSources"],
     ),
